@@ -53,14 +53,17 @@ HEdge(s, u, v) == Adj(s, u, v) /\ Delay(s, u, v) <= Dur(s, u)
 \* ... with the initially recovered nodes removed
 HLive(s, u, v) == HEdge(s, u, v) /\ u \notin R0(s) /\ v \notin R0(s)
 
-D0(s) == [v \in Nodes(s) |-> IF v \in I0(s) THEN 0 ELSE INF]
-Relax(s, D) ==
-    [v \in Nodes(s) |->
-        IF v \in R0(s) THEN INF
-        ELSE MinOf({D[v]} \cup {Plus(D[u], Delay(s, u, v)) : u \in {x \in Nodes(s) : HLive(s, x, v)}})]
-RECURSIVE Iter(_, _, _)
-Iter(s, D, k) == IF k = 0 THEN D ELSE Iter(s, Relax(s, D), k - 1)
-Dist(s) == Iter(s, D0(s), Scenarios[s].n)
+\* Bellman-Ford on a set of <<node, distance>> pairs: TLC evaluates sets eagerly, whereas
+\* nested function constructors stay lazy and are re-evaluated at every application
+Get(P, v) == (CHOOSE p \in P : p[1] = v)[2]
+P0(s) == {<<v, IF v \in I0(s) THEN 0 ELSE INF>> : v \in Nodes(s)}
+RelaxP(s, P) ==
+    {<<v, IF v \in R0(s) THEN INF
+          ELSE MinOf({Get(P, v)} \cup {Plus(Get(P, u), Delay(s, u, v)) : u \in {x \in Nodes(s) : HLive(s, x, v)}})>>
+        : v \in Nodes(s)}
+RECURSIVE IterP(_, _, _)
+IterP(s, P, k) == IF k = 0 THEN P ELSE IterP(s, RelaxP(s, P), k - 1)
+Dist(s) == LET P == IterP(s, P0(s), Scenarios[s].n) IN [v \in Nodes(s) |-> Get(P, v)]
 
 RefInf(s) == LET D == Dist(s) IN
     [v \in Nodes(s) |-> IF D[v] < INF /\ Plus(Tmin(s), D[v]) < Tmax(s) THEN Tmin(s) + D[v] ELSE INF]
